@@ -52,6 +52,7 @@ type ontChain struct {
 	dst    uint64
 	memo   map[uint32]*otypes.Header
 	byPub  map[string]*account.Account
+	c20    bool // state trees also carry the shared / forged leaves of the C20 replay runs
 }
 
 // maskMembers turns a bit mask over the pool into a peer set of 4..7 members (robust against
@@ -465,10 +466,47 @@ func (c *ontChain) leaf(h uint32, i int, variant int64) ([]byte, []byte) {
 	return b, ccid
 }
 
-func (c *ontChain) leafHashes(h uint32) []common.Uint256 {
-	var hs []common.Uint256
+// shared returns the cross-chain state of message group g (C20 replay runs): the SAME state
+// (same bytes, same cross-chain id) is a leaf of the state trees of the four heights of its
+// group, so it can be proven at several heights; variant 1 is a forged twin with the same
+// cross-chain id and an altered payload, also committed by the chain at those heights.
+func (c *ontChain) shared(g uint32, variant int64) ([]byte, []byte) {
+	ccid := c.h32("sharedccid", g, 0)
+	p := &ccom.MakeTxParamWithSender{MakeTxParam: ccom.MakeTxParam{TxHash: c.h32("sharedtx", g, 0), CrossChainID: ccid,
+		FromContractAddress: []byte{0xf2, byte(g)}, ToChainID: c.dst, ToContractAddress: []byte{0xd2, byte(g), byte(variant)}, Method: "unlock", Args: []byte{byte(g), byte(variant)}}}
+	copy(p.Sender[:], c.ccmc)
+	b, err := p.Serialization()
+	if err != nil {
+		panic(err)
+	}
+	return b, ccid
+}
+
+func (c *ontChain) group(h uint32) uint32 {
+	if h <= c.g0 {
+		return 0
+	}
+	return (h - c.g0 - 1) / 4
+}
+
+// leaves of the cross-chain state tree of height h.
+func (c *ontChain) leaves(h uint32) [][]byte {
+	var ls [][]byte
 	for i := 0; i < ontLeaves; i++ {
 		b, _ := c.leaf(h, i, 0)
+		ls = append(ls, b)
+	}
+	if c.c20 {
+		s0, _ := c.shared(c.group(h), 0)
+		s1, _ := c.shared(c.group(h), 1)
+		ls = append(ls, s0, s1)
+	}
+	return ls
+}
+
+func (c *ontChain) leafHashes(h uint32) []common.Uint256 {
+	var hs []common.Uint256
+	for _, b := range c.leaves(h) {
 		hs = append(hs, merkle.HashLeaf(b))
 	}
 	return hs
@@ -478,13 +516,17 @@ func (c *ontChain) statesRoot(h uint32) common.Uint256 {
 	return merkle.TreeHasher{}.HashFullTreeWithLeafHash(c.leafHashes(h))
 }
 
-func (c *ontChain) proof(h uint32, i int) []byte {
-	b, _ := c.leaf(h, i%ontLeaves, 0)
-	path, err := merkle.MerkleLeafPath(b, c.leafHashes(h))
+func (c *ontChain) proofOf(h uint32, leaf []byte) []byte {
+	path, err := merkle.MerkleLeafPath(leaf, c.leafHashes(h))
 	if err != nil {
 		panic(err)
 	}
 	return path
+}
+
+func (c *ontChain) proof(h uint32, i int) []byte {
+	b, _ := c.leaf(h, i%ontLeaves, 0)
+	return c.proofOf(h, b)
 }
 
 func (c *ontChain) msg(h uint32) *otypes.CrossChainMsg {
